@@ -951,3 +951,10 @@ def _maxlen(ex, st, d):
 @ext("logging.getLogger")
 def _get_logger(ex, st, args, kwargs, k, where):
     return k(st, VPy("ext", "logger-object"))
+
+
+@REG.specfn("is_prefix")
+def _is_prefix(ex, st, a, b):
+    ta, _ = ex.as_seq(st, ex.unwrap(a))
+    tb, _ = ex.as_seq(st, ex.unwrap(b))
+    return VBool(app("seq.prefixof", BOOL, ta, tb))
